@@ -250,11 +250,11 @@ class SetUpdateClause(ContainerUpdateClause):
         if not self._analyzed:
             self._analyze()
         if (self.previous is None and
-                not self._assignments and
+                self._assignments is None and
                 self._additions is None and
                 self._removals is None):
             return 1
-        return int(bool(self._assignments)) + int(bool(self._additions)) + int(bool(self._removals))
+        return int(self._assignments is not None) + int(self._additions is not None) + int(self._removals is not None)
 
     def update_context(self, ctx):
         if not self._analyzed:
@@ -304,7 +304,7 @@ class ListUpdateClause(ContainerUpdateClause):
     def get_context_size(self):
         if not self._analyzed:
             self._analyze()
-        return int(self._assignments is not None) + int(bool(self._append)) + int(bool(self._prepend))
+        return int(self._assignments is not None) + int(self._append is not None) + int(self._prepend is not None)
 
     def update_context(self, ctx):
         if not self._analyzed:
